@@ -3,8 +3,10 @@ from props import S
 CFG = {
     "properties_file": "Properties/C29.v",
     "corr_files": ["Corr/C29.v"],
-    # both streams come from harness/cmd/drive_c29; the thorough tier is built and run under the Go race detector
-    "streams": [S("C29", "drive_c29", 48, 1600, race=True), S("C29b", "drive_c29", 32, 1600, race=True)],
+    # both streams come from harness/cmd/drive_c29; both tiers are built and run under the Go race detector (the
+    # property is about data races: a report makes the driver exit 66, which breaks the tie)
+    "streams": [dict(S("C29", "drive_c29", 48, 1600, race=True), race_quick=True),
+                dict(S("C29b", "drive_c29", 32, 1600, race=True), race_quick=True)],
     "rule": "concurrent histories against ONE real server (absnfs.New over the mutex-protected specfs, requests through "
             "NFSProcedureHandler.HandleCall, real clock): a sequential set-up (MNT, shared directory, pre-created files), then 2-4 "
             "client goroutines x 3-8 requests, seeded schedule noise (yield / 1-40 us / 60-540 us / 0.3-3 ms stalls) before AND "
